@@ -24,7 +24,8 @@ B_ROWS = ["u", "u", "u", "v", "v", "v", "v"]
 NROWS = len(A_ROWS)
 
 
-INDEXES = {None: None, "default": None, "permuted": [3, 0, 6, 2, 5, 1, 4], "string": list("pqrstuv"), "nonunique": [1, 1, 0, 0, 2, 2, 1]}
+INDEXES = {None: None, "default": None, "permuted": [3, 0, 6, 2, 5, 1, 4], "string": list("pqrstuv"), "nonunique": [1, 1, 0, 0, 2, 2, 1],
+           "range-offset": pandas.RangeIndex(10, 17), "range-step": pandas.RangeIndex(3, 17, 2)}  # RangeIndex objects that are not 0..n-1
 
 
 # other data layouts ("any row count >= 1, any level sets"): name -> (A rows, A levels, B rows, B levels)
